@@ -20,15 +20,16 @@ import (
 // process; the check then names the case that was running (progress file).
 //
 // Sub-kinds:
-//   bytes    Unmarshal on arbitrary bytes: mutations of rendered schema documents (byte
-//            flips, truncation, every keyword given every JSON type, deep nesting) and noise
-//   graph    Resolve / Marshal / CloneSchemas on Schema graphs built in Go: nil children in
-//            slices and maps, shared and cyclic pointers, malformed URIs, conflicting fields
-//   loader   Resolve with loaders that fail, return nil, return the root itself, return
-//            documents referring back, return documents with other drafts
-//   inst     Validate / ApplyDefaults on instances in every representation incl. typed nils,
-//            nil pointers, NaN/Inf, bad json.Number literals, structs, arrays, non-JSON kinds
-//   types    For / ForType on declared types incl. recursive ones and unsupported kinds
+//
+//	bytes    Unmarshal on arbitrary bytes: mutations of rendered schema documents (byte
+//	         flips, truncation, every keyword given every JSON type, deep nesting) and noise
+//	graph    Resolve / Marshal / CloneSchemas on Schema graphs built in Go: nil children in
+//	         slices and maps, shared and cyclic pointers, malformed URIs, conflicting fields
+//	loader   Resolve with loaders that fail, return nil, return the root itself, return
+//	         documents referring back, return documents with other drafts
+//	inst     Validate / ApplyDefaults on instances in every representation incl. typed nils,
+//	         nil pointers, NaN/Inf, bad json.Number literals, structs, arrays, non-JSON kinds
+//	types    For / ForType on declared types incl. recursive ones and unsupported kinds
 type RobustCase struct {
 	ID   string
 	Kind string
@@ -431,7 +432,9 @@ type rbBad struct {
 	U uintptr
 	I rbIface
 }
-type rbDeepBad struct{ A []map[string]*struct{ Z chan int } }
+type rbDeepBad struct {
+	A []map[string]*struct{ Z chan int }
+}
 type rbEmbed struct {
 	rbStruct
 	*rbRec
